@@ -99,7 +99,6 @@ import PyYetiVerif.Props.C18TranM
 #print axioms PyYetiVerif.C18.upqsetpv_never_returns_of_progress
 #print axioms PyYetiVerif.C18.upqsetpv_cyclic_diverges
 #print axioms PyYetiVerif.C18.formtran0_gset
-#print axioms PyYetiVerif.C18.formtran0_gset_repeated
 #print axioms PyYetiVerif.C18.formtran0_phg
 #print axioms PyYetiVerif.C18.formtran0_pha
 #print axioms PyYetiVerif.C18.formtran_mset_composition
